@@ -172,7 +172,7 @@ func compareState(x *vkit.Ctx, what string, rec recovered, alive map[string]stri
 // serfLayer starts a real Serf node on the snapshot the history left behind
 // (same in-memory file system) and observes, through the capture transport,
 // whom it tries to re-join, and through Stats() what its clocks restored to.
-func serfLayer(r *snapRun, x *vkit.Ctx) bool {
+func serfLayer(r *snapRun, x *vkit.Ctx, checkClocks bool) bool {
 	r.closeSnap()
 	nw := simnet.New(1)
 	self := "restarted-self"
@@ -207,22 +207,42 @@ func serfLayer(r *snapRun, x *vkit.Ctx) bool {
 	}
 	// the rejoin pass announces its end in the log (every dial fails here: nobody
 	// is listening), so "no further dial will come" need not be guessed
+	finished := true
 	if len(r.alive) > 0 {
-		dl := time.Now().Add(10 * time.Second)
+		mon := vkit.StartMonitor()
+		dl := time.Now().Add(5 * time.Second)
 		for {
 			lg := n.Log.String()
 			if strings.Contains(lg, "Failed to re-join any previously known node") || strings.Contains(lg, "Re-joined to previously known node") {
 				break
 			}
 			if time.Now().After(dl) {
-				x.Inconclusive("serf-layer: the rejoin pass did not finish in 10 s")
-				return false
+				// no rejoin pass in 5 s: the node found nobody to re-join in its
+				// snapshot (the comparison below says so), unless the process was starved
+				finished = false
+				break
 			}
 			collect()
 			time.Sleep(200 * time.Microsecond)
 		}
+		gap := mon.MaxGap()
+		mon.Stop()
+		if !finished && gap > time.Second {
+			x.Inconclusive("serf-layer: starved while waiting for the rejoin pass")
+			return false
+		}
 	} else {
-		time.Sleep(2 * time.Millisecond)
+		// nobody to re-join: no rejoin pass is expected and nothing announces its
+		// absence; give a pass that should not exist 30 ms to show itself
+		dl := time.Now().Add(30 * time.Millisecond)
+		for time.Now().Before(dl) {
+			collect()
+			if len(got) > 0 || strings.Contains(n.Log.String(), "Attempting re-join") {
+				time.Sleep(2 * time.Millisecond)
+				break
+			}
+			time.Sleep(500 * time.Microsecond)
+		}
 	}
 	collect()
 	if aliveKey(got) != aliveKey(want) {
@@ -234,8 +254,16 @@ func serfLayer(r *snapRun, x *vkit.Ctx) bool {
 				sig = "name-with-slash-not-rejoined"
 			}
 		}
-		x.Violationf(sig, "a node %q restarted on the snapshot dialled %s, the model's last known alive members (without itself) are %s", self, aliveKey(got), aliveKey(want))
+		x.Violationf(sig, "a node %q restarted on the snapshot (rejoin_after_leave=%v) dialled %s, the model's last known alive members (without itself) are %s (rejoin pass seen to finish: %v)", self, r.c.Rejoin, aliveKey(got), aliveKey(want), finished)
 		return false
+	}
+	if !checkClocks {
+		x.Label("serf-layer")
+		if err := r.openSnap(); err != nil {
+			x.Inconclusive("reopen after serf layer: " + err.Error())
+			return false
+		}
+		return true
 	}
 	st := n.Serf.Stats()
 	var mt, et, qt uint64
@@ -283,7 +311,7 @@ func bodyC10(c snapCase, x *vkit.Ctx) {
 	// Serf-level layer (a quarter of the cases): a node created on this snapshot
 	// tries to re-join exactly the recorded members and restores its clocks
 	if c.SerfLayer && !c.RealFS && !nl {
-		if !serfLayer(r, x) {
+		if !serfLayer(r, x, true) {
 			return
 		}
 	}
